@@ -83,6 +83,10 @@ def judge(ctx, line, script, ops, impl, sock):
                 if b[i] & 0x0F == 8:
                     ncl += 1
                 i += 2 + 4 + ln
+        if res == "X:SPIN":
+            ctx.violate("inert-after-close-or-loss", "end-of-stream-not-recognised-as-loss", inp,
+                        "X:CLOSED at the end of the stream, transport released", "keeps reading the ended stream", size=size)
+            break
         # (b) range
         if a[0] in ("close", "sclose"):
             s = int(a[1])
@@ -163,6 +167,10 @@ def run(ctx):
                 # the transport starts refusing writes (EPIPE) at the k-th send: close() must still release everything
                 cfg = {"tail": "timeout", "to": 2000, "fail": rnd.choice([0, 0, 1, 2])}
                 sessions.append((cfg, scr[nm], ops))
+                meta.append((nm, ops))
+            if (len(ops) <= 2 and nm in ("eof", "data-eof", "close", "reset")) or rnd.random() < 0.1:
+                # a non-blocking transport (timeout 0): "no data now" is EAGAIN, end of stream is still the loss of the connection
+                sessions.append(({"tail": "timeout", "to": 0}, scr[nm], ops))
                 meta.append((nm, ops))
     res = rx.run_sessions(ctx, "session:close-state", sessions)
     for (nm, ops), (impl, model, ws, sock, line) in zip(meta, res):
